@@ -20,8 +20,8 @@ Proof.
   - rewrite in_app_iff. cbn. split; intros [H|H]; auto. destruct H as [H|[]]; auto.
 Qed.
 
-Lemma keys_acc sel evs : forall acc n,
-  In n (fold_left (fun acc e => if sel (fst e) then add (snd e) acc else acc) evs acc) <->
+Lemma keys_acc (sel : kind -> bool) (evs : list ev) : forall acc n,
+  In n (fold_left (fun acc (e : ev) => if sel (fst e) then add (snd e) acc else acc) evs acc) <->
   In n acc \/ exists k, sel k = true /\ In (k, n) evs.
 Proof.
   induction evs as [|[k m] evs IH]; intros acc n; cbn [fold_left fst snd].
@@ -52,8 +52,11 @@ Proof.
   - intros [H|H]; [exists KStore|exists KWalrus]; split; auto.
 Qed.
 
-(* ---- function-like scopes (comp = false) ---- *)
-Theorem local_is_compilers_local_but_del_only evs n : no_walrus evs ->
+Lemma ev_dec (a b : ev) : {a = b} + {a <> b}.
+Proof. decide equality; [apply Nat.eq_dec|decide equality]. Qed.
+
+(* ---- function-like scopes (comp = false); walrus events are only emitted for a comprehension root ---- *)
+Theorem local_is_compilers_local_but_del_only evs n : no_walrus_ev evs ->
   (In n (s_local (classify false evs)) <-> occurs KStore n evs /\ ~ declared n evs) /\
   (py_local n evs <-> In n (s_local (classify false evs)) \/ (occurs KDel n evs /\ ~ occurs KStore n evs /\ ~ declared n evs)).
 Proof.
@@ -64,16 +67,55 @@ Proof.
     - intros ([H|H] & (G & N) & _); [|exfalso; exact (NW n H)]. split; [assumption|intros [X|X]; auto].
     - intros (H & D). repeat split; auto. }
   split; [exact L|]. rewrite L. split.
-  - intros ([S|D] & ND); [left; auto|]. destruct (in_dec (fun a b : ev => ltac:(decide equality; [apply Nat.eq_dec|decide equality])) (KStore, n) evs) as [S|S]; [left; auto|right; auto].
+  - intros ([S|D] & ND); [left; auto|]. destruct (in_dec ev_dec (KStore, n) evs) as [S|S]; [left; auto|right; auto].
   - intros [(S & ND)|(D & _ & ND)]; auto.
 Qed.
 
-Theorem free_is_compilers_free evs n :
-  In n (s_free (classify false evs)) <-> py_free n evs.
+Theorem free_is_compilers_free evs n : no_walrus_ev evs ->
+  (In n (s_free (classify false evs)) <-> py_free n evs).
 Proof.
-  unfold classify, s_free, py_free, declared, occurs.
+  intros NW. unfold classify, s_free, py_free, declared, occurs.
   rewrite filter_In, negb_true_iff, mem_false, !in_app_iff, keys_store, !keys_kind, keys_In. split.
   - intros ((k & E & H) & N). destruct k; cbn in E; try discriminate. repeat split; auto; intros X; apply N; tauto.
-  - intros (H & S & D & ND). split; [exists KLoad; split; auto|]. intros [[X|X]|[X|[X|X]]]; try tauto.
-    (* a walrus store cannot hide a load here: with comp = false such events are ordinary stores of the model, the harness never emits them *)
-Abort.
+  - intros (H & S & D & ND). split; [exists KLoad; split; auto|]. intros [[X|X]|[X|[X|X]]]; try tauto. exact (NW n X).
+Qed.
+
+(* no name is both local and free; a declared name is neither *)
+Theorem local_free_declared_disjoint comp evs n :
+  (In n (s_local (classify comp evs)) -> ~ In n (s_free (classify comp evs))) /\
+  (In n (s_global (classify comp evs)) \/ In n (s_nonlocal (classify comp evs)) -> ~ In n (s_local (classify comp evs)) /\ (comp = false -> ~ In n (s_free (classify comp evs)))).
+Proof.
+  unfold classify, s_local, s_free, s_global, s_nonlocal. split.
+  - rewrite !filter_In, !negb_true_iff, !orb_false_iff, !mem_false. intros (St & (G & N) & W) (_ & F). apply F. clear F.
+    destruct comp.
+    + rewrite filter_In, negb_true_iff, mem_false. split; assumption.
+    + rewrite in_app_iff. now left.
+  - intros D. split.
+    + rewrite filter_In, negb_true_iff, !orb_false_iff, !mem_false. intros (_ & (G & N) & _). destruct D; auto.
+    + intros ->. rewrite filter_In, negb_true_iff, mem_false, !in_app_iff. intros (_ & F). apply F. destruct D; auto.
+Qed.
+
+(* a walrus target in a comprehension root is never local to the comprehension, and it is reported free
+   (to be bound by the enclosing function) unless the comprehension also binds the name in another way *)
+Theorem walrus_target_of_comprehension_root evs n : In (KWalrus, n) evs ->
+  ~ In n (s_local (classify true evs)) /\
+  (~ In (KStore, n) evs -> In n (s_free (classify true evs))) /\ In n (s_store (classify true evs)).
+Proof.
+  intros W. unfold classify, s_local, s_free, s_store. repeat split.
+  - rewrite filter_In, negb_true_iff, !orb_false_iff, !mem_false, !keys_kind. intros (_ & _ & X). auto.
+  - intros NS. rewrite filter_In, negb_true_iff, mem_false, filter_In, negb_true_iff, mem_false, !keys_kind, keys_In. split.
+    + exists KWalrus. split; auto.
+    + intros (_ & X). auto.
+  - apply keys_store. now right.
+Qed.
+
+Example symbols_nonvacuous :
+  (* def f(arg): global g; nonlocal q; loc = arg; del dd; q += free_; g = 1   ->  events in walk order, names as numbers:
+     arg=0 g=1 q=2 loc=3 dd=4 free_=5 *)
+  let evs := [(KStore, 0); (KGlobal, 1); (KNonlocal, 2); (KStore, 3); (KLoad, 0); (KDel, 4); (KLoad, 2); (KStore, 2); (KLoad, 5); (KStore, 1)] in
+  let s := classify false evs in
+  s_local s = [0; 3] /\ s_free s = [5] /\ s_store s = [0; 3; 2; 1] /\ s_load s = [0; 2; 5] /\ s_del s = [4] /\
+  (* [y := x for x in it]  as root: it=0 y=1 x=2 *)
+  let c := classify true [(KLoad, 0); (KWalrus, 1); (KLoad, 2); (KStore, 2)] in
+  s_local c = [2] /\ s_free c = [0; 1] /\ s_load c = [0; 2] /\ s_store c = [1; 2].
+Proof. repeat split; reflexivity. Qed.
